@@ -134,7 +134,11 @@ class BrokerRig(object):
         from qstrader import settings
         self.printing = bool(printing)         # the library's default is to print every event; output is discarded
         settings.set_print_events(self.printing)
-        self.handler = StubHandler(dict((a, (cur(q["bid"]), cur(q["ask"]))) for a, q in quotes_mil.items()))
+        # how the model's assets are SPELLED for the library: as they are, or (a quarter of the rigs) lower-case / dotted /
+        # mixed-case symbols - nothing in the accounting depends on the letters of a symbol
+        self.spell = {"A": "EQ:aaa", "B": "brk.b", "C": "EQ:Ccc"} if (t0 // 1440) % 4 == 3 else {}
+        self.unspell = dict((v, k) for k, v in self.spell.items())
+        self.handler = StubHandler(dict((self.spell.get(a, a), (cur(q["bid"]), cur(q["ask"]))) for a, q in quotes_mil.items()))
         self.fee = fee
         self.obs = observer
         # every instant handed to the library is the model's minute plus a constant number of seconds (the model counts
@@ -152,7 +156,7 @@ class BrokerRig(object):
         saved = sys.stdout
         sys.stdout = _Null()
         try:
-            self.broker = SimulatedBroker(start, SimulatedExchange(start), self.handler,
+            self.broker = SimulatedBroker(start, SimulatedExchange(self._exchange_start(start)), self.handler,
                                           account_id="acct", base_currency=ccy, initial_funds=0.0, fee_model=make_fee(fee))
         finally:
             sys.stdout = saved
@@ -188,9 +192,12 @@ class BrokerRig(object):
             sys.stdout = saved
             settings.set_print_events(False)
 
-    def _apply(self, c):
+    def _apply(self, c0):
         from qstrader.execution.order import Order
         b = self.broker
+        c = dict(c0)
+        if "asset" in c:
+            c["asset"] = self.spell.get(c["asset"], c["asset"])
         op = c["op"]
         amt = c["fa"] if "fa" in c else (cur(c["a"]) if "a" in c else None)
         err = "ok"
@@ -200,7 +207,7 @@ class BrokerRig(object):
                 from qstrader.broker.simulated_broker import SimulatedBroker
                 from qstrader.exchange.simulated_exchange import SimulatedExchange
                 start = self.ts(self.t0)
-                b = self.broker = SimulatedBroker(start, SimulatedExchange(start), self.handler, account_id="acct",
+                b = self.broker = SimulatedBroker(start, SimulatedExchange(self._exchange_start(start)), self.handler, account_id="acct",
                                                   base_currency=self.ccy, initial_funds=amt, fee_model=make_fee(self.fee))
             elif op == "sub_acct":
                 b.subscribe_funds_to_account(amt)
@@ -246,19 +253,33 @@ class BrokerRig(object):
         except Exception as e:       # the outcome class IS the observation
             err = errclass(e)
         marks, fills = self.obs.take()
-        return dict(call=c, err=err, marks=self._marks(marks), fills=self._fills(fills), post=self.project())
+        return dict(call=c0, err=err, marks=self._marks(marks), fills=self._fills(fills), post=self.project())
 
     def _fills(self, fills):
-        return [dict(pid=f["pid"], oid=self.oid_of.get(f["oid"], 0), asset=f["asset"], qty=int(f["qty"]),
+        return [dict(pid=f["pid"], oid=self.oid_of.get(f["oid"], 0), asset=self.unspell.get(f["asset"], f["asset"]), qty=int(f["qty"]),
                      px=mil(f["px"]), comm=mil(f["comm"]), t=minutes(f["t"]),
                      f_px=float(f["px"]), f_comm=float(f["comm"])) for f in fills]
 
+    def _exchange_start(self, start):
+        """The exchange object's own `start_dt` is a label (exchange hours are Monday-Friday 14:30-21:00 UTC whenever the
+        object was created): a third of the rigs hand the broker an exchange object 'started' four days later, a third
+        one 'started' a year earlier."""
+        k = (self.t0 // 1440) % 3
+        return start if k == 0 else (start + pd.Timedelta(days=4) if k == 1 else start - pd.Timedelta(days=365))
+
     def _marks(self, marks):
-        return [dict(pid=m["pid"], asset=m["asset"], px=mil(m["px"]), t=minutes(m["t"])) for m in marks]
+        return [dict(pid=m["pid"], asset=self.unspell.get(m["asset"], m["asset"]), px=mil(m["px"]), t=minutes(m["t"])) for m in marks]
 
     # -- what a client can observe ------------------------------------------------------------
     def project(self):
-        return project_broker(self.broker, self.oid_of, self.UNKNOWN)
+        p = project_broker(self.broker, self.oid_of, self.UNKNOWN)
+        if self.unspell:
+            u = self.unspell
+            for pid in p["created"]:
+                p["hold"][pid] = dict((u.get(a, a), v) for a, v in p["hold"][pid].items())
+                p["_f"]["hold"][pid] = dict((u.get(a, a), v) for a, v in p["_f"]["hold"][pid].items())
+                p["queue"][pid] = [[o[0], u.get(o[1], o[1]), o[2]] for o in p["queue"][pid]]
+        return p
 
 
 def project_broker(b, oid_of, UNKNOWN="__no_such_portfolio__"):
